@@ -40,6 +40,7 @@ def gen_cases(ctx):
                "pa_first": rng.random() < 0.5,
                "mac": rng.choice(["none", "int", "bytes6", "short"]), "hist": hist,
                "form": rng.choice(["single", "single", "list", "tuple", "empty"]),
+               "rounds": rng.choice([1, 1, 2, 3]),
                "delta": rng.choice([-2, -1, 0, 0, 1, 2, -5, 3]), "nchunks": rng.choice([1, 1, 2, 3]),
                "data_type": rng.choice([0xFF, 0x16, 0x09, 0x2A]), "seed": rng.getrandbits(30)}
 
@@ -164,88 +165,97 @@ def run_case(ctx, case):
                 chunks.append(F.chunk(data, t))
             total = sum(len(c) for c in chunks)
             arg = chunks if form == "list" else tuple(chunks)
-        air0 = len(rig.air.log)
-        rf_ch = radio.r[5]
-        node.deadline = node.t + 200 * W.MS
-        exc = None
-        try:
-            ble.advertise(arg, case["data_type"]) if form in ("single", "empty") else ble.advertise(arg)
-        except ValueError as e:
-            exc = e
-        except W.VirtualDeadline:
-            ctx.violation("advertise-no-return", "advertise() did not return", case)
-            return
-        finally:
-            node.deadline = None
-        node.idle(1 * W.MS)
-        ctx.clause("valueerror_boundary")
-        fits = total <= free
-        if fits and exc is not None:
-            ctx.violation("valueerror/spurious", "advertise of %d chunk bytes with %d free raised %r"
-                          % (total, free, exc), case)
-            return
-        if not fits:
-            if exc is None:
-                ctx.violation("valueerror/missing", "advertise of %d chunk bytes with only %d free "
-                              "did not raise ValueError" % (total, free), case)
+        pa_level_now = case["pa_level"]
+        for rnd in range(case.get("rounds", 1)):
+            if rnd:
+                # the same object advertises again - the same chunk objects - after its TX power
+                # was changed (every second time), as a beacon in a running session does
+                ctx.clause("repeated_advertisement")
+                if pa_now and rnd % 2:
+                    pa_level_now = [x for x in (-18, -12, -6, 0) if x != pa_level_now][(rnd + case["seed"]) % 3]
+                    ble.pa_level = pa_level_now
+            air0 = len(rig.air.log)
+            rf_ch = radio.r[5]
+            node.deadline = node.t + 200 * W.MS
+            exc = None
+            try:
+                ble.advertise(arg, case["data_type"]) if form in ("single", "empty") else ble.advertise(arg)
+            except ValueError as e:
+                exc = e
+            except W.VirtualDeadline:
+                ctx.violation("advertise-no-return", "advertise() did not return", case)
                 return
-            if len(rig.air.log) != air0:
-                ctx.violation("valueerror/packet-sent-anyway", "packet on air despite ValueError", case)
+            finally:
+                node.deadline = None
+            node.idle(1 * W.MS)
+            ctx.clause("valueerror_boundary")
+            fits = total <= free
+            if fits and exc is not None:
+                ctx.violation("valueerror/spurious", "advertise of %d chunk bytes with %d free raised %r"
+                              % (total, free, exc), case)
                 return
-            ctx.nontrivial(("reject", case["name_len"], pa_now, total - free, form))
-            return
-        pk = [p for p in rig.air.log[air0:] if p.kind == "data"]
-        if len(pk) != 1:
-            ctx.violation("packets-per-advertise", "%d packets on air for one advertise()" % len(pk), case)
-            return
-        p = pk[0]
-        src = p.src
-        ctx.clause("decoded_by_phone")
-        why = None
-        if p.aw != 4 or p.crclen != 0 or p.rate != 1 or p.dpl or len(p.payload) != 32:
-            why = "radio settings: aw %d crc %d rate %s dpl %s len %d" % (p.aw, p.crclen, p.rate, p.dpl, len(p.payload))
-        elif src.r[1] != 0 or src.r[4] & 0x0F:
-            why = "EN_AA=%02X SETUP_RETR=%02X (not the PCF-less legacy format)" % (src.r[1], src.r[4])
-        d = ble_ref.phone_decode(p.addr, p.payload, p.ch) if why is None else {"ok": False, "why": why}
-        hops = tuple(h[0] + (str(h[1]) if len(h) > 1 else "") for h in case["hist"])
-        if not d["ok"]:
-            # which channel would it decode on?  (diagnosis only)
-            alt = [c for c in (2, 26, 80) if c != p.ch and ble_ref.phone_decode(p.addr, p.payload, c)["ok"]]
-            key = "whitened-for-other-channel" if alt else "not-decodable"
-            ctx.violation(key, "packet sent on RF_CH %d is not a valid BLE packet for channel %s: %s%s; "
-                          "channel history %r" % (p.ch, ble_ref.CHANNEL_OF_RF_CH.get(p.ch), d.get("why"),
-                                                  (" (it decodes on RF_CH %d)" % alt[0]) if alt else "", hops), case)
-            return
-        ctx.clause("fields_match")
-        exp_ad = [(0x01, b"\x05")]
-        if pa_now:
-            exp_ad.append((0x0A, bytes([case["pa_level"] & 0xFF])))
-        if name_b is not None:
-            exp_ad.append((0x08, name_b))
-        exp_ad += ads
-        bad = None
-        if d["header"] != 0x42:
-            bad = "header %02X" % d["header"]
-        elif d["length"] != 6 + sum(2 + len(x[1]) for x in exp_ad):
-            bad = "length byte %d, expected %d" % (d["length"], 6 + sum(2 + len(x[1]) for x in exp_ad))
-        elif d["mac"] != mac:
-            bad = "MAC %s, configured %s" % (d["mac"].hex(), mac.hex())
-        elif d["ad"] != exp_ad:
-            bad = "AD structures %r, expected %r" % (d["ad"], exp_ad)
-        if bad:
-            ctx.violation("pdu-fields/" + bad.split()[0], "%s (name %r pa %s form %s)" % (bad, name_b, pa_now, form), case)
-            return
-        if ble.len_available(b"x" * total) != free - total:
-            ctx.violation("len_available/hypothetical", "len_available(%d bytes) = %d, expected %d"
-                          % (total, ble.len_available(b"x" * total), free - total), case)
-            return
-        if radio.san:
-            ctx.violation("sanitizer:" + radio.san[0][0], radio.san[0][1], case)
-            return
-        ctx.nontrivial((case["name_len"], case["name_type"], pa_now, case["pa_level"] if pa_now else None,
-                        tuple(len(x[1]) for x in ads), form, hops, p.ch))
-        ctx.sample({"name": name_b.decode() if name_b else None, "pa": pa_now, "form": form,
-                    "chunk_lengths": [len(x[1]) for x in ads], "history": case["hist"], "rf_ch": p.ch,
-                    "decoded_length": d["length"], "crc_ok": d["crc_ok"]})
+            if not fits:
+                if exc is None:
+                    ctx.violation("valueerror/missing", "advertise of %d chunk bytes with only %d free "
+                                  "did not raise ValueError" % (total, free), case)
+                    return
+                if len(rig.air.log) != air0:
+                    ctx.violation("valueerror/packet-sent-anyway", "packet on air despite ValueError", case)
+                    return
+                ctx.nontrivial(("reject", case["name_len"], pa_now, total - free, form))
+                return
+            pk = [p for p in rig.air.log[air0:] if p.kind == "data"]
+            if len(pk) != 1:
+                ctx.violation("packets-per-advertise", "%d packets on air for one advertise()" % len(pk), case)
+                return
+            p = pk[0]
+            src = p.src
+            ctx.clause("decoded_by_phone")
+            why = None
+            if p.aw != 4 or p.crclen != 0 or p.rate != 1 or p.dpl or len(p.payload) != 32:
+                why = "radio settings: aw %d crc %d rate %s dpl %s len %d" % (p.aw, p.crclen, p.rate, p.dpl, len(p.payload))
+            elif src.r[1] != 0 or src.r[4] & 0x0F:
+                why = "EN_AA=%02X SETUP_RETR=%02X (not the PCF-less legacy format)" % (src.r[1], src.r[4])
+            d = ble_ref.phone_decode(p.addr, p.payload, p.ch) if why is None else {"ok": False, "why": why}
+            hops = tuple(h[0] + (str(h[1]) if len(h) > 1 else "") for h in case["hist"])
+            if not d["ok"]:
+                # which channel would it decode on?  (diagnosis only)
+                alt = [c for c in (2, 26, 80) if c != p.ch and ble_ref.phone_decode(p.addr, p.payload, c)["ok"]]
+                key = "whitened-for-other-channel" if alt else "not-decodable"
+                ctx.violation(key, "packet sent on RF_CH %d is not a valid BLE packet for channel %s: %s%s; "
+                              "channel history %r" % (p.ch, ble_ref.CHANNEL_OF_RF_CH.get(p.ch), d.get("why"),
+                                                      (" (it decodes on RF_CH %d)" % alt[0]) if alt else "", hops), case)
+                return
+            ctx.clause("fields_match")
+            exp_ad = [(0x01, b"\x05")]
+            if pa_now:
+                exp_ad.append((0x0A, bytes([pa_level_now & 0xFF])))
+            if name_b is not None:
+                exp_ad.append((0x08, name_b))
+            exp_ad += ads
+            bad = None
+            if d["header"] != 0x42:
+                bad = "header %02X" % d["header"]
+            elif d["length"] != 6 + sum(2 + len(x[1]) for x in exp_ad):
+                bad = "length byte %d, expected %d" % (d["length"], 6 + sum(2 + len(x[1]) for x in exp_ad))
+            elif d["mac"] != mac:
+                bad = "MAC %s, configured %s" % (d["mac"].hex(), mac.hex())
+            elif d["ad"] != exp_ad:
+                bad = "AD structures %r, expected %r" % (d["ad"], exp_ad)
+            if bad:
+                ctx.violation("pdu-fields/" + bad.split()[0], "%s (name %r pa %s form %s)" % (bad, name_b, pa_now, form), case)
+                return
+            if ble.len_available(b"x" * total) != free - total:
+                ctx.violation("len_available/hypothetical", "len_available(%d bytes) = %d, expected %d"
+                              % (total, ble.len_available(b"x" * total), free - total), case)
+                return
+            if radio.san:
+                ctx.violation("sanitizer:" + radio.san[0][0], radio.san[0][1], case)
+                return
+            ctx.nontrivial((case["name_len"], case["name_type"], pa_now, pa_level_now if pa_now else None,
+                            tuple(len(x[1]) for x in ads), form, hops, p.ch))
+            ctx.sample({"name": name_b.decode() if name_b else None, "pa": pa_now, "form": form,
+                        "chunk_lengths": [len(x[1]) for x in ads], "history": case["hist"], "rf_ch": p.ch,
+                        "decoded_length": d["length"], "crc_ok": d["crc_ok"]})
     finally:
         rig.close()
